@@ -5,8 +5,8 @@ import json, os, sys
 CHECKS = {
   "C10": dict(
     level="exploration", design="DESIGN.md 3/C10",
-    technique="property-based testing (proptest choice sequences) + text mutators; oracle: tree invariants (leaves concat == input, children tile, root spans file, get_text == slice)",
-    text="Generated-input search: ~64k (quick) / ~770k (thorough) mutated and synthetic source texts are parsed and all four losslessness clauses are checked on every tree; failures are shrunk (proptest + ddmin) to a replay file. Exploration is the right level: the property quantifies over all texts and the oracle is exact per input.",
+    technique="property-based testing (proptest choice sequences) + text mutators; oracle: tree invariants (leaves concat == input, children tile, root spans file, get_text == slice); thorough tier adds a bounded coverage-guided libFuzzer campaign (cargo-fuzz target fuzz/fuzz_targets/c10_lossless.rs with the oracle inside the target, artifacts confirmed by the engine oracle)",
+    text="Generated-input search: ~64k (quick) / ~770k (thorough) mutated and synthetic source texts are parsed and all four losslessness clauses are checked on every tree; failures are shrunk (proptest + ddmin) to a replay file; the thorough command then runs libFuzzer for 240 s on all cores (about 10^5 executions) from a small valid seed corpus. Exploration is the right level: the property quantifies over all texts and the oracle is exact per input.",
     note="Trusted: my tree walk and the rough lexer used only for failure descriptions; SimpleParserDatabase is the parser entry point. Inputs are valid UTF-8 <= 16 KiB."),
 }
 
